@@ -17,6 +17,7 @@ class ScriptDul(object):
         self.accepted_contexts = None
         self.killed = False
         self.stop_calls = 0
+        self.max_pdu_length = 65536      # the real provider keeps the LOCAL receive maximum it was constructed with
 
     def send(self, x):
         self.sent.append(x)
@@ -69,6 +70,7 @@ def make_acceptor(ae, max_pdu_length, script=()):
     a = object.__new__(asceprovider.AssociationAcceptor)
     a.ae = ae
     a.dul = ScriptDul(script)
+    a.dul.max_pdu_length = max_pdu_length
     a.association_established = False
     a.max_pdu_length = max_pdu_length
     a.accepted_contexts = {}
@@ -82,6 +84,7 @@ def make_requester(ae, max_pdu_length, remote_ae, script=()):
     a = object.__new__(asceprovider.AssociationRequester)
     a.ae = ae
     a.dul = ScriptDul(script)
+    a.dul.max_pdu_length = max_pdu_length
     a.association_established = False
     a.max_pdu_length = max_pdu_length
     a.accepted_contexts = {}
@@ -130,6 +133,7 @@ class DulModule(object):
     def DULServiceProvider(cls, store_in_file, get_file_cb, dul_socket=None, max_pdu_length=65536):
         script = cls.scripts.pop(0) if cls.scripts else ()
         d = ScriptDul(script)
+        d.max_pdu_length = max_pdu_length
         d.ctor_args = (store_in_file, get_file_cb, dul_socket, max_pdu_length)
         cls.created.append(d)
         return d
